@@ -14,8 +14,9 @@ from checks.server_family import KEX_FOR, CIPHERS
 ENC_FOR = {"P256": [1, 2, 3], "P384": [1, 2, 3], "RSA2048RESTR": [1, 2], "RSAPKCS3072": [1, 2], "RSAPSS2048": [1, 2], "RSAPSS3072": [1, 2]}
 
 
-def gen_cfg(steps, cuts):
-    return "SPECIFICATION GenSpec\nCONSTANTS\n  MaxSteps = %d\n  MaxCuts = %d\nINVARIANTS Emit\n" % (steps, cuts)
+def gen_cfg(steps, cuts, ext=False, aio="FALSE"):
+    return ("SPECIFICATION GenSpec\nCONSTANTS\n  MaxSteps = %d\n  MaxCuts = %d\n  Ext = %s\n  AIOs = {%s}\nINVARIANTS Emit\n"
+            % (steps, cuts, "TRUE" if ext else "FALSE", aio))
 
 
 def to_action(rec):
@@ -28,16 +29,18 @@ def to_action(rec):
         out["cut"] = {"kind": c["kind"], "t": c["t"]}
     if a["a"] == "to2":
         out["reuse"] = a["reuse"]
+        out["useblob"] = bool(a.get("useblob"))
     return out
 
 
 def validate(ctx, events):
     """events: list with reset lines. Returns runs accepted; reports violations."""
-    runs, cur = [], None
+    runs, cur, resets = [], None, []
     for ev in events:
         if ev["a"] == "reset":
             cur = []
             runs.append(cur)
+            resets.append({"a": "reset", "aio": bool(ev.get("aio"))})
         else:
             cur.append(ev)
     pending = list(range(len(runs)))
@@ -46,7 +49,7 @@ def validate(ctx, events):
     while pending:
         lines, index = [], []
         for ri in pending:
-            lines.append({"a": "reset"})
+            lines.append(resets[ri])
             index.append((ri, None))
             for ev in runs[ri]:
                 lines.append(ev)
@@ -99,6 +102,28 @@ def run(ctx):
     ctx.cov["states"] += r.get("distinct", 0)
     ctx.cov["transitions"] += r.get("generated", 0)
     ctx.log("%d histories from TLC" % len(hists))
+    # the extended alphabet (rendezvous leg, all-in-one deployment, failed resale): random walks of the specification
+    ext = []
+    for aio in ("FALSE", "TRUE"):
+        cfge = os.path.join(wd, "Lifecycle_Gen_ext_%s.cfg" % aio)
+        with open(cfge, "w") as f:
+            f.write(gen_cfg(8 if quick else 10, 1, ext=True, aio=aio))
+        re_ = ctx.tlc("Lifecycle_Gen", cfge, simulate=(300 if quick else 3000), depth=(8 if quick else 10), workers=1, seed=ctx.seed * 3 + (aio == "TRUE"), timeout=1200)
+        hs_ = ctx.behaviours(re_)
+        seen_ = set()
+        for h in hs_:
+            k = json.dumps(h, sort_keys=True)
+            if k not in seen_:
+                seen_.add(k)
+                ext.append((aio == "TRUE", h))
+    ngen_ext = len(ext)
+    rnd.shuffle(ext)
+    # richest histories first (most distinct kinds of action, a TO2 that uses a blob counts extra)
+    ext.sort(key=lambda ah: -(len(set(x["act"]["a"] for x in ah[1])) + sum(1 for x in ah[1] if x["act"]["a"] == "to2" and x["act"].get("useblob"))))
+    ext = ext[:(500 if quick else 8000)]
+    ctx.log("%d distinct histories over the extended alphabet (rendezvous leg, all-in-one, failed resale), %d executed" % (ngen_ext, len(ext)))
+    if len(ext) < 50:
+        raise Inconclusive("too few extended histories generated (%d)" % len(ext))
     # prefer histories with a cut, but keep uncut ones too; cover every (cut kind, type) at least once
     rnd.shuffle(hists)
     want = 500 if quick else 6000
@@ -117,6 +142,13 @@ def run(ctx):
         k = kinds[i % len(kinds)] if (not quick or i % 5 == 0) else "P256"
         cfg = {"kind": k, "enc": rnd.choice(ENC_FOR[k]), "kex": rnd.choice(KEX_FOR[k]), "cipher": rnd.choice(CIPHERS), "rvinfo": rnd.random() < 0.5, "mods": rnd.choice([0, 1, 1, 2])}
         hs.append({"cfg": cfg, "actions": [to_action(x) for x in h]})
+    for i, (aio, h) in enumerate(ext):
+        k = kinds[i % len(kinds)] if (not quick or i % 5 == 0) else rnd.choice(["P256", "P384"])
+        cfg = {"kind": k, "enc": rnd.choice(ENC_FOR[k]), "kex": rnd.choice(KEX_FOR[k]), "cipher": rnd.choice(CIPHERS), "rvinfo": rnd.random() < 0.5,
+               "mods": rnd.choice([0, 1]), "aio": aio}
+        hs.append({"cfg": cfg, "actions": [to_action(x) for x in h]})
+    ctx.notes["extended_histories"] = len(ext)
+    ctx.notes["extended_histories_all_in_one"] = sum(1 for a, _ in ext if a)
     wd = ctx.sub("lreplay")
     hp = os.path.join(wd, "histories.json")
     with open(hp, "w") as f:
@@ -128,7 +160,10 @@ def run(ctx):
     real = [e for e in evs if e["a"] != "reset"]
     ctx.cov["traces_validated_against_impl"] = n
     ctx.cov["evaluations"] = len(real)
-    ctx.cov["distinct_nontrivial"] = len(set((e["a"], e["cutkind"], e["cutt"], e["reuse"], e["ok"], e["agreeO"], e["agreeM"]) for e in real))
+    ctx.cov["distinct_nontrivial"] = len(set((e["a"], e["cutkind"], e["cutt"], e["reuse"], e["ok"], e["agreeO"], e["agreeM"], e.get("useblob"), e.get("rvLive"), e.get("hasBlob")) for e in real))
+    ctx.notes["to2_with_rendezvous_blob"] = {"completed": sum(1 for e in real if e["a"] == "to2" and e.get("useblob") and e["ok"]),
+                                            "failed": sum(1 for e in real if e["a"] == "to2" and e.get("useblob") and not e["ok"])}
+    ctx.notes["actions_executed"] = {a: sum(1 for e in real if e["a"] == a) for a in sorted(set(e["a"] for e in real))}
     ctx.cov["rule"] = "history = DI / handover / TO2 (replace or reuse) / resale / persist sequence from Lifecycle.tla with at most one cut; one evaluation = one action executed on the real stack and its projection validated; distinct = distinct (action, cut, reuse, result, agreement) tuples"
     ctx.notes["cut_points_covered"] = sorted(set("%s@%s:%s" % (e["cutkind"], e["cutt"], e["a"]) for e in real if e["cutkind"] != "none"))
     ctx.notes["configurations"] = sorted(set("%s/%s/%s/%s" % (h["cfg"]["kind"], h["cfg"]["enc"], h["cfg"]["kex"], h["cfg"]["cipher"]) for h in hs))[:40]
